@@ -402,6 +402,10 @@ class Interp:
         if isinstance(cond, bool):
             return cond
         c = ctx()
+        memo = c.cache.setdefault('fork-memo', {})
+        hit = memo.get(cond.get_id())
+        if hit is not None:
+            return hit[1]                      # same condition already decided on this path
         if c.pos < len(c.decisions):
             d = c.decisions[c.pos]
         else:
@@ -419,6 +423,7 @@ class Interp:
             c.decisions.append(d)
         c.pos += 1
         c.pc.append(cond if d else z3.Not(cond))
+        memo[cond.get_id()] = (cond, d)
         c.trace.append('%s=%s' % (label or 'br', 'T' if d else 'F'))
         return d
 
